@@ -203,6 +203,26 @@ def r4_r5(ctx, F):
                     '%sGradualDifficulty::len() consults every collection whose emptiness ends next() (%s)' % (CAP[mode], sorted(empties) or 'none'), ln.where(),
                     bad='%sGradualDifficulty::next() returns None at once when self.%s is empty, but len() (%s) never looks at it: an empty calculator announces '
                         'len() >= 1 and then produces nothing' % (CAP[mode], '/'.join(missing), prov.show(lrv, maxdepth=5)))
+        # R6: the collection whose `get(idx - 1)?` ends next() is the one len() measures
+        term = set()
+        for bi, t in nxt.calls():
+            if t['func'].get('name') == 'get' and ('slice' in (t['func'].get('path') or '') or 'Vec' in (t['func'].get('path') or '')):
+                a = P.call_args(bi)
+                pp = as_param_path(a[0])
+                if pp is not None and pp[0] == 1 and pp[1] and any(x[0] == 'field' and x[2] == 'idx' for x in prov.walk(a[1], limit=40)):
+                    term.add(pp[1][0])
+        if term:
+            measured = set()
+            for nn in prov.walk(lrv, limit=300):
+                if nn[0] == 'len' or (nn[0] == 'call' and nn[1].get('name') == 'len'):
+                    inner = nn[1] if nn[0] == 'len' else nn[2][0]
+                    pp = as_param_path(inner)
+                    if pp is not None and pp[0] == 1 and pp[1]:
+                        measured.add(pp[1][0])
+            ctx.require(measured == term, 'C15-R6', '%s:len-collection' % mode,
+                        '%sGradualDifficulty::len() measures self.%s, the collection whose get(idx - 1)? ends next()' % (CAP[mode], '/'.join(sorted(term))), ln.where(),
+                        bad='%sGradualDifficulty::next() stops when self.%s runs out, but len() measures self.%s: with a passed_objects limit (or any other '
+                            'length difference) len()/size_hint() no longer equal the number of values to come' % (CAP[mode], '/'.join(sorted(term)), '/'.join(sorted(measured)) or '?'))
         # R5: nth(n) must not silently clamp n: a comparison of n with len() has to guard a None return
         Pn = prov.prov_of(nth)
         clamps = []
